@@ -75,7 +75,8 @@ constexpr auto remainder_check(T const x, T const y) noexcept -> T
     if (any_nan(x, y) || !is_finite(x) || y == T(0)) {
         return etl::numeric_limits<T>::quiet_NaN();
     }
-    if (!is_finite(y)) {
+    // infinite y: x itself; a zero x keeps its sign
+    if (!is_finite(y) || x == T(0)) {
         return x;
     }
     T const ax = abs(x);
